@@ -21,13 +21,15 @@ CLAIMS = {
               "not reachable from the dispatch. (B) parse_cmd's combinator expression, reconstructed from MIR (closures evaluated "
               "symbolically), expands to exactly the documented 548 token-sequence alternatives with the documented command value "
               "(case-insensitive keywords, checked u8 conversions in bases 16/2/10, usize counts), no alternative shadows a later "
-              "one, the whole line must be consumed. (C) Tui::handle_input maps every Command to exactly the documented machine "
+              "one, the whole line must be consumed, every keyword matcher is exact up to ASCII case (tag_no_case decided per keyword "
+              "against nom's pairing-and-byte-length algorithm). (C) Tui::handle_input maps every Command to exactly the documented machine "
               "call with its payload; CTRL+A/W/E/R/L/C and Enter act as documented, other keys do nothing, a notification swallows "
               "the key, an invalid line only raises a notification. (A') the one library routine the editor hands a position to, "
               "rustyline's complete_path(line, pos), is called within its slicing contract: pos is 0 or the byte offset of a character "
               "boundary of line (from char_indices().nth() or len()), at most its length - decided with character counts in the zone domain."),
-        note=("Three genuine defects found and fixed (byte slicing in the FC..FF completion; trailing input accepted: 'FC = 0x1FF' set FC "
-              "to 0; 'load ä' + Tab handed a character count to a byte-slicing completer). NOT decided: that drawing never fails at every terminal size - InputWidget::render mixes byte and char "
+        note=("Four genuine defects found and fixed (byte slicing in the FC..FF completion; trailing input accepted: 'FC = 0x1FF' set FC "
+              "to 0; 'load ä' + Tab handed a character count to a byte-slicing completer; nom's tag_no_case executed 'quİ' as quit). "
+              "NOT decided: that drawing never fails at every terminal size - InputWidget::render mixes byte and char "
               "offsets and subtracts from the area width; its safety depends on layout values computed inside the tui crate and on "
               "the text being ASCII; the inside of rustyline's file-name completer beyond its slicing contract; the event loop."),
         design="3/C17"),
@@ -43,7 +45,7 @@ CLAIMS = {
               "clear, all others keep it, skipped edges (halt, memory wait) keep it, the level input stays clear. (4) The only "
               "writers of the flip-flop are the trigger, reset, constructor and two pipeline stages; the trigger sets it exactly "
               "under MICR bit 0 and never clears it; the bus raises no interrupts; MICR is written only by Bus::write and resets. "
-              "(5) RETI pops PC then FR. The data-path model is tied to the pipeline code as in C01."),
+              "(5) RETI pops PC then FR. The data-path model is tied to the pipeline code as in C01. Machine::trigger_key_interrupt is one unconditional call of the analysed trigger in every machine state (must-call marker)."),
         note=("Equality of the final state of an interrupted run with the uninterrupted run is a statement about executions and is "
               "not decided as such; decided are the structural conditions it rests on. EI, DI and RETI never test the interrupt "
               "inputs (a pending interrupt waits one more instruction), MUL/DIV test them only at their delivering word. A key "
@@ -63,7 +65,7 @@ CLAIMS = {
               "carry-holding additions), every addition recorded, Z/N from the delivered product, and the acyclic "
               "division-by-zero path (0xFF, carry set). Pipeline agreement: stage order of one clock edge, operand provenance of "
               "the three back-half stages for all 719 (word, register-class) pairs, commit stage, flag bit positions. The ALU "
-              "function shapes (rule of C08) are re-decided here. Every opcode the assembler can emit is a defined form."),
+              "function shapes (rule of C08) are re-decided here. Every opcode the assembler can emit is a defined form. The pipeline agreement includes: bus read/write happen on every path of a word that asks for them (must-call marker), and the commit stage applies the flag update before the register write (LDFR loads its operand verbatim)."),
         note=("Numeric ALU results for all operand values are not decided beyond the shape facts of C08 (dependence sets, pass-through, "
               "constants, carry classes); MUL/DIV numeric results are not decided, only the carry discipline and the zero-divisor path. "
               "Instruction sequences: per-instruction effects compose because the comparison covers the complete architectural state "
@@ -96,7 +98,7 @@ CLAIMS = {
               "appended. .ORG/.BYTE zero fill, .DB order, .DW byte order (on word cells with disjoint high/low byte sets), .EQU and "
               "label definitions, the relative-jump closure and the late substitution in finish are decided on cells. The symbol "
               "table must come out of every non-defining instruction and directive exactly as it went in (4600 cases; any write "
-              "or unmodelled access to it counts)."),
+              "or unmodelled access to it counts). The symbol-table key at both definitions and both look-ups is exactly to_lowercase(name) (sa/symkeys.py): no two names share an entry."),
         note=("One genuine defect found and fixed (.BYTE advanced the counter twice). Not decided: whole multi-line programs "
               "as a composition (follows from the per-line clauses), wrap-around beyond 255 bytes (C06 findings). The reference "
               "encoding is transcribed from the instruction table and cross-checked against the control store's dispatch in C01."),
@@ -109,7 +111,7 @@ CLAIMS = {
               "interpreted abstractly on every Instruction variant with every operand shape the ADTs admit (2127 shapes; numeric "
               "payloads, the address counter, the label table and the image size unknown). The label look-ups are discharged by "
               "the cross-stage argument: the parser validated every reference, and definition, look-up and validation normalise "
-              "names identically (data-flow through to_lowercase at every HashMap::insert/get)."),
+              "names identically (data-flow through to_lowercase at every HashMap::insert/get). A failing label check comes out of AsmParser::parse as an error for every error variant; symbol-table keys are to_lowercase(name) at all four sites."),
         note=("Known findings (8 keys, all genuine crash paths for parser-accepted text that need an error channel compile() does "
               "not have): backward .ORG (deliberate panic), and images above 255/240 bytes (u8 address counter, unchecked RAM "
               "index, debug assertion, TUI line ranges). Two defects were fixed (label case, DEC with memory operand). "
@@ -184,7 +186,7 @@ CLAIMS = {
               "the 1493 instruction forms have the same number of control words and the same sequence of bus accesses, the only "
               "exceptions being the conditional relative jumps (two lengths), MUL and DIV; the interrupt entry has a fixed tail. "
               "Forms that differ only in register numbers (aliased entry words) must have equal cost, and every one of the 123 "
-              "form groups must have the documented number of control words and bus accesses (spec/cycles.toml)."),
+              "form groups must have the documented number of control words and bus accesses (spec/cycles.toml). The MUL/DIV routines touch the bus only for the closing opcode fetch."),
         note=("Decides the cost rule (micro-steps + one wait per RAM access, none for I/O) and its independence of history and step "
               "mode. Not decided: the concrete cycle number of a concrete program (needs register values to classify each access)."),
         design="3/C15"),
@@ -247,7 +249,7 @@ CLAIMS = {
               "modes, the only state transitions are those the property lists, the stack/PC predicates are checked on "
               "interval cells that must each yield a single outcome (so a shifted constant or a wrong comparison is caught "
               "for every value, not a sample), every syntactic writer of `state` is covered by an analysed entry point, and an "
-              "error stop raised by the register commit of a clock edge survives the opcode load of the same edge."),
+              "error stop raised by the register commit of a clock edge survives the opcode load of the same edge. The edge that loads STOP leaves the micro-sequencer at the successor of the fetch word (a continue resumes with the next instruction); Machine::trigger_key_continue is an unconditional call of the analysed routine."),
         note=("One genuine defect found and fixed (error stop downgraded to a regular stop when the same edge loaded STOP). "
               "Decides: absorption of halt states, exact writer set and state effect per entry point, exact bands of the "
               "supervision predicates for the five stack sizes and the program-size limit, halting bytes at every IR load. "
